@@ -331,6 +331,7 @@ class ES(Inverter):
                 raise ValueError()
             eco_mode: EcoMode | Sensor = self._settings.get('eco_mode_1')
             await self._read_setting(eco_mode)
+            eco_mode.set_schedule_type(ScheduleType.ECO_MODE, False)
             if operation_mode == OperationMode.ECO_CHARGE:
                 await self.write_setting('eco_mode_1', eco_mode.encode_charge(eco_mode_power, eco_mode_soc))
             else:
